@@ -660,8 +660,6 @@ Notes:
                 direc = asarray(direc, dtype=float)
             fval = squeeze(cost(x))
             self._stepmon(x, fval, self.id) # get initial values
-            # if savefrequency matches, then save state
-            self._AbstractSolver__save_state()
 
         elif not self.generations: # do generations = 1
             ilist = range(len(x))
@@ -713,8 +711,6 @@ Notes:
             if self._energy_history is not None: # else logged by Finalize
                 self.energy_history = None # resync with 'best' energy
                 self._stepmon(x, fval, self.id) # get ith values
-                # if savefrequency matches, then save state
-                self._AbstractSolver__save_state()
 
             fx = fval
             bigind = 0
@@ -740,6 +736,8 @@ Notes:
         self.population[0] = x   # bestSolution
         self.popEnergy[0] = fval # bestEnergy
 
+        # if savefrequency matches, then save state
+        self._AbstractSolver__save_state() #NOTE: only when step is complete
         # do callback
         if callback is not None: callback(self.bestSolution)
         # initialize termination conditions, if needed
